@@ -1,26 +1,20 @@
 #!/usr/bin/env python3
 """Self-validation helper (not part of any registered check).
-   recheck_seed.py <seed-name> "<note>" : applies seeded/<seed-name>/patch.diff to /repo, runs the property's quick check,
-   reverts /repo, and records the result in the seed's meta.json (the first result is kept as first_check_result)."""
+   recheck_seed.py <seed-name> "<note>" : applies seeded/<seed-name>/patch.diff to a scratch copy of /repo
+   (tools/seedrun.py; /repo itself is never touched), runs the property's quick check on the copy, and records the result in the seed's meta.json (the first result is kept as first_check_result)."""
 import json, os, subprocess, sys
 ROOT = os.path.dirname(os.path.dirname(os.path.abspath(__file__)))
 name = sys.argv[1]; note = sys.argv[2] if len(sys.argv) > 2 else ""
 pid = name[:3]
 d = os.path.join(ROOT, "seeded", name)
 meta = json.load(open(os.path.join(d, "meta.json")))
-evf = os.path.join(ROOT, "evidence", pid + ".json")
-evsave = open(evf).read() if os.path.exists(evf) else None
-assert subprocess.run(["git", "-C", "/repo", "status", "--short"], stdout=subprocess.PIPE, text=True).stdout.strip() == "", "/repo not clean"
-assert subprocess.run(["git", "-C", "/repo", "apply", os.path.join(d, "patch.diff")]).returncode == 0
-try:
-    p = subprocess.run(["python3", "tools/check.py", pid, "--tier", "quick"], cwd=ROOT, stdout=subprocess.PIPE, stderr=subprocess.STDOUT, text=True, timeout=3000)
-finally:
-    subprocess.run(["git", "-C", "/repo", "checkout", "--", "."])
-    if evsave is not None:
-        open(evf, "w").write(evsave)
-lines = [l for l in p.stdout.split("\n") if "VIOLATION" in l or "broken:" in l][:8]
+sys.path.insert(0, os.path.join(ROOT, "tools"))
+from seedrun import check_with_patch  # noqa: E402
+st, rcode, out = check_with_patch(pid, os.path.join(d, "patch.diff"), "quick", 3000)
+assert st == "ran", out
+lines = [l for l in out.split("\n") if "VIOLATION" in l or "broken:" in l][:8]
 if "first_check_result" not in meta and meta.get("check_result", {}).get("exit") == 0:
     meta["first_check_result"] = dict(meta["check_result"], note="missed")
-meta["check_result"] = {"cmd": "python3 tools/check.py %s --tier quick" % pid, "exit": p.returncode, "lines": lines, "note": note}
+meta["check_result"] = {"cmd": "python3 tools/check.py %s --tier quick" % pid, "exit": rcode, "lines": lines, "note": note}
 json.dump(meta, open(os.path.join(d, "meta.json"), "w"), indent=1)
-print(name, "exit", p.returncode); print("\n".join(l[:200] for l in lines)); print(p.stdout.strip().split("\n")[-1][:200])
+print(name, "exit", rcode); print("\n".join(l[:200] for l in lines)); print(out.strip().split("\n")[-1][:200])
